@@ -869,9 +869,7 @@ pub fn run(ctx: &mut Ctx) {
         lit("query ($v0: String = \"SENTINEL_0_x\") { a: login(password: $v0) { id } }", json!({}), vec![("SENTINEL_0_x", true, [false, false, true])], false),
     ];
     for (n, w) in witnesses.iter().enumerate() {
-        if ctx.check_case("witness", run_case(&k, w), json!({"witness": n})) {
-            return;
-        }
+        ctx.check_case("witness", run_case(&k, w), json!({"witness": n}));
     }
 
     let n = ctx.tier.pick(100_000, 2_500_000);
